@@ -26,7 +26,7 @@ func trampolineBuilder(p *Prog) (*ssa.Function, textWriteSite) {
 
 func c03(c *Ctx) {
 	p, r := c.K1(), c.R
-	r.Expl = "Structural clauses behind 'the origin placeholder runs the unmodified original' (that relocated instructions execute like the originals is CPU semantics and is not decided): (R1) because the re-encoder can return more bytes than it consumed (short branches are widened), the address correction it receives in the relocation loop depends on the number of bytes already emitted, and is origin−new location; (R2) the jump back goes from trampoline+len(relocated bytes) to origin+consumed input length; (R3) the size guard and the no-branch-into-the-prefix check dominate the placeholder write, nothing can fail after it, and at least len(jump) bytes are relocated; (R4) the widening table maps exactly 0x70+cc→0F 80+cc and EB→E9 and the widened displacement is corrected by the growth of operand and opcode; (R5) the placeholder variable is re-pointed at the address the relocated code was written to."
+	r.Expl = "Structural clauses behind 'the origin placeholder runs the unmodified original' (that relocated instructions execute like the originals is CPU semantics and is not decided): (R1) because the re-encoder can return more bytes than it consumed (short branches are widened), the address correction it receives in the relocation loop depends on the number of bytes already emitted, and is origin−new location; (R2) the jump back goes from trampoline+len(relocated bytes) to origin+consumed input length; (R3) the size guard and the no-branch-into-the-prefix check dominate the placeholder write, nothing can fail after it, and at least len(jump) bytes are relocated; (R4) the widening table maps exactly 0x70+cc→0F 80+cc and EB→E9 and the widened displacement is corrected by the growth of operand and opcode; (R5) the placeholder variable is re-pointed at the address the relocated code was written to; (R6) goom's own little-endian readers/writers are bit-exact (abstract evaluation over symbolic bits); (R7) every result of the re-encoder is opcode bytes followed by displacement bytes, the displacement rewritten on the way from (old displacement, correction) by a writer of the arm's width, and the displacement reader picks the reader of each width; (R8) an overflow predicate that lets a displacement be rewritten in place answers false only for values that fit that width."
 	r.RuleText = "one obligation per (rule, call site / table entry / return)"
 	r.Floor("C03.R1", 2)
 	r.Floor("C03.R2", 2)
